@@ -482,3 +482,12 @@ def chunked_reader(data: bytes, chunk: int = 7):
 
 def pkt(line: bytes) -> bytes:
     return b"%04x" % (len(line) + 4) + line
+
+
+def tx_scenarios():
+    """inputs of the transaction runs: name -> pack bytes"""
+    A = artefacts()
+    dup, _ = typed_pack([(OBJ_BLOB, X_CONTENT)])
+    return {"valid": A["pack.blobs"]["data"], "thin": A["pack.thin"]["data"], "dup": dup,
+            "badtree": A["pack.badtree"]["data"], "cut-trailer": A["pack.blobs"]["data"][:-5],
+            "unresolved": build_attack_pack({"e": [(0, 0), (2, 4)], "hdr": 0, "tr": 1, "szat": 0, "szdir": 0})[0]}
